@@ -1,15 +1,45 @@
 (* C12 — deployment results are complete and truthful.
 
-   FULL STATEMENT: for every accepted create request, world and fault position the message list is either a
-   single failure with nothing created or one message per planned instance; successes are recorded, started,
-   on the reported node with the reported resources; failures leave no record, container or usage; the stream
-   closes.  Proved here for EVERY fault position (every call index k that is not a channel send) on the explicit
-   scenario family Sweeps.create_ops x {base3, busy3} (1-3 nodes, 1-4 instances, refused plan, second pod);
-   the unbounded statement over all worlds and plans is not proved (partial). c12_check is the boolean the
-   harness evaluates on the implementation's output (Run.c12_step_ok) plus the usage invariant. *)
-From Coq Require Import ZArith.
-From Coq Require Import List.
-From Verif Require Import Base.Effects Calcium.World Calcium.Ops Calcium.Run Calcium.Sweeps.
+   C12_messages (EVERY world in which the op index is fresh, EVERY feasible plan or a refusal, EVERY position k
+   of the single injected fault): the create script returns either the single message [MCreateErr] or one
+   message per planned instance; the records and containers added are exactly those of the success messages
+   (recorded on the reported node with the reported resources, container running), nothing else is added;
+   every node's usage grows by exactly the resources of the instances created on it (so failures leave no
+   record, container or usage).  C12_instance / C12_node are the per-instance and per-node statements it is
+   built from.  "The stream closes" and the order of sends are covered by C12_messages_scenarios (the boolean
+   the harness evaluates, for every fault position on explicit scenarios): in the index-addressed interpreter a
+   fault index may denote a channel send, which no real fault can hit, so statements about the channel are made
+   for the positions that are not sends.  Hypotheses: the plan is feasible for the plugin (every Alloc of it
+   succeeds), its nodes exist and are distinct, no record/container of this op index exists yet. *)
+From Coq Require Import List ZArith.
+From Verif Require Import Base.Effects Calcium.World Calcium.Ops Calcium.Run Calcium.Sweeps
+  Calcium.OpsProofs2 Calcium.DeployProofs Calcium.DeployProofs2 Calcium.CreateProofs Calcium.CreateProofs2.
+
+Theorem C12_messages : forall opi pod r plan w k, create_hyp w opi r plan ->
+  exists w' k' ms, crunk (create opi pod r plan) w k = (w', k', ms) /\ create_post opi pod r plan w w' ms.
+Proof. exact create_spec. Qed.
+Print Assumptions C12_messages.
+
+Theorem C12_instance : forall x decr w k,
+  find_wl w (w_id x) = None -> find_cont w (w_id x) = None ->
+  exists w' k' r, crunk (deploy_one x decr) w k = (w', k', r) /\
+  (r = None -> core_eq w' w (wls w ++ (x :: nil)) (conts w ++ (mkCont (w_id x) CRunning :: nil))) /\
+  (r <> None -> core_eq w' w (wls w) (conts w) /\ k' = None).
+Proof. exact deploy_one_spec. Qed.
+Print Assumptions C12_instance.
+
+Theorem C12_plan : forall opi pod r plan w k,
+  NoDup (map fst plan) -> fresh_on w opi (map fst plan) -> (forall n, In n (map fst plan) -> find_node w n <> None) ->
+  exists w' k' rb ms, crunk (deploy_all opi pod r plan) w k = (w', k', (rb, ms)) /\
+    length ms = plan_total plan /\
+    (rb <> nil -> k' = None) /\
+    (forall p, In p (created_of ms) -> wi_op (fst p) = opi /\ In (wi_node (fst p)) (map fst plan) /\ snd p = r) /\
+    (forall n cnt, In (n, cnt) plan -> (rb_len rb n + created_on ms n = cnt)%nat) /\
+    (forall n, ~ In n (map fst plan) -> rb_len rb n = 0%nat) /\
+    (forall g, In g rb -> In (fst g) (map fst plan)) /\
+    core3 w' w (wls w ++ map (wl_of pod) (created_of ms)) (conts w ++ map cont_of (created_of ms)).
+Proof. exact deploy_all_ms. Qed.
+Print Assumptions C12_plan.
 
 Theorem C12_messages_scenarios : forall w o, (w = busy3 \/ w = base3) -> In o create_ops ->
   forall k, is_send_at (script_of o) (prep w o) k = false ->
